@@ -232,9 +232,11 @@ struct Server {
     return v;
   }
 
-  // reply = query with QR set, no answers, additional section dropped
+  // reply = query with QR set, one A record (TTL 100), additional section dropped.
+  // The buffer must have room for 16 more bytes.
   static size_t mkreply(unsigned char *b, size_t n)
   {
+    static const unsigned char rr[16] = { 0xc0, 0x0c, 0, 1, 0, 1, 0, 0, 0, 100, 0, 4, 127, 0, 0, 1 };
     if (n < 12) return 0;
     b[2] = (unsigned char)(b[2] | 0x80);
     b[3] = 0x80;
@@ -242,8 +244,11 @@ struct Server {
     while (i < n && b[i] != 0) i += (size_t)b[i] + 1;
     i += 5;
     if (i > n) return 0;
-    b[6] = b[7] = b[8] = b[9] = b[10] = b[11] = 0;
-    return i;
+    b[6] = 0;
+    b[7] = 1;
+    b[8] = b[9] = b[10] = b[11] = 0;
+    memcpy(b + i, rr, sizeof(rr));
+    return i + sizeof(rr);
   }
 
   void run()
@@ -264,10 +269,10 @@ struct Server {
       for (int i = 0; i < 2; i++) {
         if (!(pf[(size_t)i].revents & POLLIN)) continue;
         for (;;) {
-          unsigned char      buf[1500];
+          unsigned char      buf[1500 + 16];
           struct sockaddr_in from;
           socklen_t          fl = sizeof(from);
-          ssize_t            n  = recvfrom(udp[i], buf, sizeof(buf), 0, (struct sockaddr *)&from, &fl);
+          ssize_t            n  = recvfrom(udp[i], buf, 1500, 0, (struct sockaddr *)&from, &fl);
           if (n <= 0) break;
           std::string nm = qname(buf, (size_t)n);
           record(nm, ntohs(from.sin_port), 0, i);
@@ -300,10 +305,12 @@ struct Server {
               if (in.size() < 2 + l) break;
               std::vector<unsigned char> q(in.begin() + 2, in.begin() + 2 + (long)l);
               in.erase(in.begin(), in.begin() + 2 + (long)l);
-              std::string nm = qname(q.data(), q.size());
+              size_t ql = q.size();
+              q.resize(ql + 16);
+              std::string nm = qname(q.data(), ql);
               record(nm, 0, 1, 0);
               if (!nm.empty() && nm[0] == 'a') {
-                size_t rl = mkreply(q.data(), q.size());
+                size_t rl = mkreply(q.data(), ql);
                 if (rl) {
                   unsigned char hdr[2] = { (unsigned char)(rl >> 8), (unsigned char)(rl & 0xff) };
                   (void)!write(conns[ci].fd, hdr, 2);
@@ -515,6 +522,7 @@ struct ChanCfg {
   int         tries     = 2;
   int         timeoutms = 200;
   int         udpmax    = 0;
+  int         qcache    = 0;
   std::string resolvconf;
 };
 
@@ -574,7 +582,7 @@ static void world_up(const ChanCfg &c)
   mask |= ARES_OPT_HOSTS_FILE;
   o.lookups = (char *)"b";
   mask |= ARES_OPT_LOOKUPS;
-  o.qcache_max_ttl = 0;
+  o.qcache_max_ttl = (unsigned int)c.qcache;
   mask |= ARES_OPT_QUERY_CACHE;
   o.server_failover_opts.retry_chance = 0;
   o.server_failover_opts.retry_delay  = 60000;
@@ -639,6 +647,8 @@ static void dump_trace(const char *label)
                 e.k == ARES_VERIF_SYNC_CWAKE_TMO ? 1 : 0);
         break;
       case ARES_VERIF_SYNC_CSIGNAL:
+        fprintf(g_trace, "{\"k\":\"signal\",\"t\":%d,\"ms\":%d}\n", e.t, e.ms);
+        break;
       case ARES_VERIF_SYNC_CBROADCAST:
         fprintf(g_trace, "{\"k\":\"bcast\",\"t\":%d,\"ms\":%d}\n", e.t, e.ms);
         break;
@@ -709,9 +719,10 @@ static int new_req(const char *prefix)
   return id;
 }
 
-static int op_send(const char *prefix)
+static int op_send(const char *prefix, const char *fixed_name = NULL)
 {
   int id = new_req(prefix);
+  if (fixed_name) snprintf(g_req[id].name, sizeof(g_req[id].name), "%s", fixed_name);
   g_req[id].t_call.store(now_ms(), std::memory_order_relaxed);
   logev(K_CALL, NULL, NULL, API_SEND, id);
   ares_status_t rc = ares_query_dnsrec(W->ch, g_req[id].name, ARES_CLASS_IN, ARES_REC_TYPE_A, req_cb, &g_req[id], NULL);
@@ -881,6 +892,9 @@ static int run_c07(const std::string &backend, const std::string &reuse, const s
       }
       usleep(1000);
     }
+  } else if (reuse == "overdue") {
+    // q1 itself is sent first; the event thread is then held before ares_timeout() until q1's
+    // first deadline has passed, so the loop computes its sleep from an already expired deadline
   } else if (reuse != "fresh") {
     machinery("bad reuse %s", reuse.c_str());
   }
@@ -896,8 +910,19 @@ static int run_c07(const std::string &backend, const std::string &reuse, const s
   unsigned long tmo_at_send = g_wait_tmo.load();
   int           evph_at_send = g_evphase.load();
   int32_t       t_send = now_ms();
-  int           q1     = op_send("s");
-  if (ph != 0 && ph != 100) release_ev();
+  int           q1;
+  if (reuse == "overdue" && setup_ok) {
+    if (ph != 0 && ph != 100) release_ev();
+    t_send = now_ms();
+    q1     = op_send("s");
+    wait_ev_sleeping(20);                       // it sleeps until q1's first deadline (250 ms)
+    hold_ev_at(ARES_VERIF_PHASE_TIMEOUT);       // kicked, caught before ares_timeout()
+    while (now_ms() - t_send < 320) usleep(2000);  // the deadline passes while it is held
+    release_ev();
+  } else {
+    q1 = op_send("s");
+    if (ph != 0 && ph != 100) release_ev();
+  }
 
   int  limit  = budget * 2 + 2000;
   bool got    = wait_cb(q1, limit);
@@ -916,7 +941,7 @@ static int run_c07(const std::string &backend, const std::string &reuse, const s
     if (c.usevc) reused = (p1[0].tcp && p0[0].tcp) ? 1 : 0;
     else reused = (p1[0].srcport == p0.back().srcport) ? 1 : 0;
   }
-  if (setup_ok && (reuse != "fresh") && reused != 1 && reuse != "tcp_idle") {
+  if (setup_ok && (reuse != "fresh") && (reuse != "overdue") && reused != 1 && reuse != "tcp_idle") {
     setup_ok = false;
     why      = "connection was not reused";
   }
@@ -1240,6 +1265,130 @@ static int run_d11(const std::string &backend, bool gated)
 }
 
 // ---------------------------------------------------------------------------
+// waiters: N threads in ares_queue_wait_empty(4000) while one silent request is pending.
+// When the request times out the queue is empty: every waiter must return SUCCESS soon.
+// ---------------------------------------------------------------------------
+static int run_waiters(const std::string &backend, int nwaiters, const std::string &how)
+{
+  ChanCfg c;
+  c.backend = backend_of(backend);
+  std::string label = "waiters." + backend + "." + how;
+  fprintf(stderr, "## begin %s\n", label.c_str());
+  reset_state();
+  g_next_tid.store(nwaiters + 1);
+  tl_tid = 0;
+  wd_arm(label, 20000);
+  world_up(c);
+  int q = op_send("s");
+  std::vector<std::thread> ths;
+  std::vector<int>         rcs((size_t)nwaiters, -1), el((size_t)nwaiters, -1);
+  for (int i = 1; i <= nwaiters; i++) {
+    ths.emplace_back([&, i] {
+      tl_tid     = i;
+      int32_t t0 = now_ms();
+      rcs[(size_t)i - 1] = op_wait(4000);
+      el[(size_t)i - 1]  = now_ms() - t0;
+    });
+  }
+  // all waiters asleep on cond_empty
+  int32_t t0 = now_ms();
+  for (;;) {
+    int n = 0;
+    for (int i = 1; i <= nwaiters; i++) n += worker_in_cwait(i) ? 1 : 0;
+    if (n == nwaiters || now_ms() - t0 > 3000) break;
+    usleep(1000);
+  }
+  int32_t t_drain = -1;
+  if (how == "cancel") {
+    op_cancel();
+    t_drain = now_ms();
+  } else {
+    wait_cb(q, 6000);   // the request times out through the event thread
+    t_drain = g_req[q].t_cb.load();
+  }
+  for (auto &t : ths) t.join();
+  wd_arm(label + ".teardown", 10000);
+  world_down(label.c_str());
+  wd_off();
+  printf("{\"result\":\"waiters\",\"label\":\"%s\",\"n\":%d,\"rc\":[", label.c_str(), nwaiters);
+  for (int i = 0; i < nwaiters; i++) printf("%s%d", i ? "," : "", rcs[(size_t)i]);
+  printf("],\"elapsed_ms\":[");
+  for (int i = 0; i < nwaiters; i++) printf("%s%d", i ? "," : "", el[(size_t)i]);
+  printf("],\"drained_at_ms\":%d}\n", t_drain);
+  fflush(stdout);
+  fprintf(stderr, "## end %s\n", label.c_str());
+  return 0;
+}
+
+// ---------------------------------------------------------------------------
+// qcflush: query cache on, one cached answer; ares_reinit() -> the reload thread flushes the
+// cache.  The flush frees the cache key ("QUERY|..."): the allocator hook stalls the reload
+// thread there for a moment while a client thread looks the same name up.  The flush has to be
+// serialised with the lookup by the channel lock (ThreadSanitizer is the observer).
+// ---------------------------------------------------------------------------
+static std::atomic<int> g_qc_armed{0}, g_qc_in_flush{0}, g_qc_client_done{0};
+static void            *qc_malloc(size_t n) { return malloc(n); }
+static void            *qc_realloc(void *p, size_t n) { return realloc(p, n); }
+static void             qc_free(void *p)
+{
+  if (p != NULL && g_qc_armed.load(std::memory_order_relaxed) && tl_tid != 0 && tl_tid != 1 && tl_tid != 2 &&
+      tl_tid != g_ev_tid.load(std::memory_order_relaxed) && memcmp(p, "QUERY|", 6) == 0) {
+    g_qc_armed.store(0, std::memory_order_relaxed);
+    g_qc_in_flush.store(1, std::memory_order_relaxed);
+    int32_t t0 = now_ms();
+    while (!g_qc_client_done.load(std::memory_order_relaxed) && now_ms() - t0 < 300) usleep(500);
+  }
+  free(p);
+}
+
+static int run_qcflush(const std::string &backend)
+{
+  ChanCfg c;
+  c.backend = backend_of(backend);
+  c.qcache  = 300;
+  std::string label = "qcflush." + backend;
+  fprintf(stderr, "## begin %s\n", label.c_str());
+  reset_state();
+  g_next_tid.store(3);
+  tl_tid = 0;
+  wd_arm(label, 20000);
+  world_up(c);
+  int q0 = op_send("a", "acached.test");   // answered and cached
+  bool ok = wait_cb(q0, 3000);
+  usleep(20000);
+  g_qc_in_flush.store(0);
+  g_qc_client_done.store(0);
+  g_qc_armed.store(1);
+  int         q1 = -1;
+  std::thread A([&] {
+    tl_tid = 1;
+    op_reinit();
+  });
+  std::thread B([&] {
+    tl_tid     = 2;
+    int32_t t0 = now_ms();
+    while (!g_qc_in_flush.load(std::memory_order_relaxed) && now_ms() - t0 < 2000) usleep(200);
+    q1 = op_send("a", "acached.test");      // cache lookup while the reload thread is in the flush
+    g_qc_client_done.store(1, std::memory_order_relaxed);
+  });
+  A.join();
+  B.join();
+  int saw_flush = g_qc_in_flush.load();
+  g_qc_armed.store(0);
+  if (q1 >= 0) wait_cb(q1, 3000);
+  usleep(50000);
+  wd_arm(label + ".teardown", 10000);
+  int st1 = q1 >= 0 ? g_req[q1].status.load() : -1;
+  world_down(label.c_str());
+  wd_off();
+  printf("{\"result\":\"qcflush\",\"label\":\"%s\",\"warm_ok\":%d,\"flush_seen\":%d,\"status\":%d}\n", label.c_str(),
+         ok ? 1 : 0, saw_flush, st1);
+  fflush(stdout);
+  fprintf(stderr, "## end %s\n", label.c_str());
+  return 0;
+}
+
+// ---------------------------------------------------------------------------
 static std::string arg_of(int argc, char **argv, const char *name, const char *def)
 {
   for (int i = 2; i + 1 < argc; i++)
@@ -1265,7 +1414,8 @@ int main(int argc, char **argv)
     g_trace = fopen(trace.c_str(), "w");
     if (!g_trace) machinery("cannot open trace file");
   }
-  ares_library_init(ARES_LIB_INIT_ALL);
+  if (mode == "qcflush") ares_library_init_mem(ARES_LIB_INIT_ALL, qc_malloc, qc_free, qc_realloc);
+  else ares_library_init(ARES_LIB_INIT_ALL);
   if (!ares_threadsafety()) machinery("library built without thread support");
   ares_verif_sync_cb  = sync_cb;
   ares_verif_phase_cb = phase_cb;
@@ -1292,6 +1442,11 @@ int main(int argc, char **argv)
     rc = run_stress(arg_of(argc, argv, "--backend", "epoll"), (unsigned)atoi(arg_of(argc, argv, "--seed", "1").c_str()),
                     atoi(arg_of(argc, argv, "--threads", "3").c_str()), atoi(arg_of(argc, argv, "--ops", "60").c_str()),
                     arg_of(argc, argv, "--reinit", "0") == "1");
+  } else if (mode == "waiters") {
+    rc = run_waiters(arg_of(argc, argv, "--backend", "epoll"), atoi(arg_of(argc, argv, "--n", "2").c_str()),
+                     arg_of(argc, argv, "--how", "timeout"));
+  } else if (mode == "qcflush") {
+    rc = run_qcflush(arg_of(argc, argv, "--backend", "epoll"));
   } else if (mode == "d11") {
     rc = run_d11(arg_of(argc, argv, "--backend", "epoll"), arg_of(argc, argv, "--gated", "1") == "1");
   } else {
